@@ -4613,6 +4613,8 @@ class ResponseFuture(object):
             # TODO get connectTimeout from cluster settings
             connection, request_id = pool.borrow_connection(timeout=2.0)
             self._connection = connection
+            # _on_timeout removes/orphans (_connection, _req_id); they must describe the same attempt
+            self._req_id = request_id
             result_meta = self.prepared_statement.result_metadata if self.prepared_statement else []
 
             if cb is None:
